@@ -328,7 +328,14 @@ fn resolution_workload_with(d: &mut Digest, reader: Reader) {
                     d.i(z.as_ref().local_time_types()[0].ut_offset() as i64);
                     d.b(z.as_ref().local_time_types()[0].time_zone_designation().as_bytes());
                 }
-                Err(_) => d.i(-11),
+                Err(e) => {
+                    // the error's class and message (Display only: the Debug text of a boxed reader error shows its type)
+                    d.i(-11);
+                    let mut buf = Buf { b: [0; 96], n: 0 };
+                    let _ = write!(buf, "{}", e);
+                    d.b(&buf.b[..buf.n]);
+                    d.i(matches!(e, tz::Error::Io(_)) as i64);
+                }
             }
         }
         match settings.parse_local() {
